@@ -5,6 +5,7 @@ import (
 	"fmt"
 	"io"
 	"math"
+	"math/bits"
 	"slices"
 	"strconv"
 
@@ -390,40 +391,85 @@ func adjacentQuadrantY(quadrantI int) int {
 	return quadrantI ^ 0b10
 }
 
-// lineIntersects tests whether a line intersects with an extent.
-// TODO this can probably be faster by reusing the edges for the other three quadrants and/or only testing relevant edges (hints)
+// lineIntersects tests whether a (closed) line intersects with a (half-open) extent.
+// The right and top edges of the extent are exclusive.
+// Done with exact integer arithmetic (parametric clipping), so ties are decided consistently with containsPoint.
 func lineIntersects(intLine intgeom.Line, intExtent intgeom.Extent) bool {
 	// First see if a point is inside (cheap test).
-	pt1IsInsideQuadrant := containsPoint(intLine[0], intExtent)
-	pt2IsInsideQuadrant := containsPoint(intLine[1], intExtent)
-	if pt1IsInsideQuadrant || pt2IsInsideQuadrant {
+	if containsPoint(intLine[0], intExtent) || containsPoint(intLine[1], intExtent) {
 		return true
 	}
-
-	for edgeI, intEdge := range intExtent.Edges(nil) {
-		intersection, intersects := intgeom.SegmentIntersect(intLine, intEdge)
-		// Checking for intersection cq crossing is not enough. The right and top edges are exclusive.
-		// So there are exceptions ...:
-		if intersects { //nolint:nestif
-			if isExclusiveEdge(edgeI) {
-				if intLine[0] == intersection || intLine[1] == intersection {
-					// The tip of a line coming from the outside touches the (exclusive) edge.
-					continue
-				}
-			} else {
-				// The tip of a line coming from the outside touches the exclusive tip of an inclusive edge.
-				exclusivePoint := getExclusiveTip(edgeI, intEdge)
-				if intLine[0] == exclusivePoint || intLine[1] == exclusivePoint {
-					continue
-				}
+	// Find the range of t in [0, 1] for which min <= pt1 + t*(pt2-pt1) < max holds on both axes.
+	lo, loExclusive := fraction{0, 1}, false
+	hi, hiExclusive := fraction{1, 1}, false
+	for ax := xAx; ax <= yAx; ax++ {
+		ord := intLine[0][ax]
+		delta := intLine[1][ax] - ord
+		minOrd, maxOrd := intExtent[ax], intExtent[ax+2]
+		if delta == 0 {
+			if ord < minOrd || ord >= maxOrd {
+				return false
 			}
-			return true
-		} else if !isExclusiveEdge(edgeI) && lineOverlapsInclusiveEdge(intLine, edgeI, intEdge) {
-			// No intersection but overlap on an inclusive edge.
-			return true
+			continue
+		}
+		atMin := newFraction(minOrd-ord, delta) // inclusive
+		atMax := newFraction(maxOrd-ord, delta) // exclusive
+		enter, enterExclusive, leave, leaveExclusive := atMin, false, atMax, true
+		if delta < 0 {
+			enter, enterExclusive, leave, leaveExclusive = atMax, true, atMin, false
+		}
+		if c := enter.cmp(lo); c > 0 || c == 0 && enterExclusive {
+			lo, loExclusive = enter, enterExclusive
+		}
+		if c := leave.cmp(hi); c < 0 || c == 0 && leaveExclusive {
+			hi, hiExclusive = leave, leaveExclusive
 		}
 	}
-	return false
+	c := lo.cmp(hi)
+	return c < 0 || c == 0 && !loExclusive && !hiExclusive
+}
+
+// fraction is an exact num/den with den > 0
+type fraction struct {
+	num, den int64
+}
+
+func newFraction(num, den int64) fraction {
+	if den < 0 {
+		return fraction{-num, -den}
+	}
+	return fraction{num, den}
+}
+
+// cmp returns -1, 0 or 1 if f is smaller than, equal to or larger than g (using 128 bit products)
+func (f fraction) cmp(g fraction) int {
+	if (f.num < 0) != (g.num < 0) {
+		if f.num < 0 {
+			return -1
+		}
+		return 1
+	}
+	negative := f.num < 0
+	fHi, fLo := bits.Mul64(absUint64(f.num), uint64(g.den))
+	gHi, gLo := bits.Mul64(absUint64(g.num), uint64(f.den))
+	c := 0
+	switch {
+	case fHi != gHi:
+		c = 1 - 2*mathhelp.Bool2int(fHi < gHi)
+	case fLo != gLo:
+		c = 1 - 2*mathhelp.Bool2int(fLo < gLo)
+	}
+	if negative {
+		return -c
+	}
+	return c
+}
+
+func absUint64(i int64) uint64 {
+	if i < 0 {
+		return uint64(-i)
+	}
+	return uint64(i)
 }
 
 func (ix *PointIndex) GetHitMultiple(l Level) map[intgeom.Point][]int {
@@ -445,48 +491,6 @@ func checkPointHits(ix *PointIndex, vertex intgeom.Point, ringID int, level uint
 		// first hit of this point by any ring
 		levelHitOnce[vertex] = append(levelHitOnce[vertex], ringID)
 	}
-}
-
-func isExclusiveEdge(edgeI int) bool {
-	i := edgeI % 4
-	return i == 1 || i == 2
-}
-
-// getExclusiveTip returns the tip point of an inclusive edge that is not-inclusive
-func getExclusiveTip(edgeI int, edge intgeom.Line) intgeom.Point {
-	i := edgeI % 4
-	if i == 0 {
-		return edge[1]
-	} else if i == 3 {
-		return edge[0]
-	}
-	panic(fmt.Sprintf("not an inclusive edge: %v", edgeI))
-}
-
-// lineOverlapsInclusiveEdge helps to check if a line overlaps an inclusive edge (excluding the exclusive tip)
-func lineOverlapsInclusiveEdge(intLine intgeom.Line, edgeI int, intEdge intgeom.Line) bool {
-	var constAx, varAx int
-	switch {
-	case intEdge[0][xAx] == intEdge[1][xAx]:
-		constAx = xAx
-		varAx = yAx
-	case intEdge[0][yAx] == intEdge[1][yAx]:
-		constAx = yAx
-		varAx = xAx
-	default:
-		panic(fmt.Sprintf("not a straight edge: %v", intEdge))
-	}
-	eConstOrd := intEdge[0][constAx]
-	if intLine[0][constAx] != eConstOrd || intLine[1][constAx] != eConstOrd {
-		return false // not a straight line and/or not on same line as the edge, so no overlap
-	}
-	eOrd1 := intEdge[0][varAx]
-	eOrd2 := intEdge[1][varAx]
-
-	exclusiveTip := getExclusiveTip(edgeI, intEdge)
-	lOrd1 := intLine[0][varAx]
-	lOrd2 := intLine[1][varAx]
-	return lOrd1 != lOrd2 && (mathhelp.IBetweenInc(lOrd1, eOrd1, eOrd2) && intLine[0] != exclusiveTip || mathhelp.IBetweenInc(lOrd2, eOrd1, eOrd2) && intLine[1] != exclusiveTip)
 }
 
 func oneIfRight(quadrantI int) int {
